@@ -1,5 +1,7 @@
 import ParryModel.Field
 import ParryModel.C10.Model
+import ParryModel.C10.Lemmas
+import Mathlib.Analysis.Real.Sqrt
 /-!
 # C10 property theorems: support maps return a member of the shape maximising `dir·p`.
 All statements are about the model functions of `C10/Model.lean` at the lawful instance `fieldNum K sq`
@@ -72,5 +74,269 @@ theorem cuboid_support2 (he dir : V2 K) (hx : 0 ≤ he.x) (hy : 0 ≤ he.y) :
   have a := cs_max he.x dir.x q.x hx h1
   have b := cs_max he.y dir.y q.y hy h2
   linarith
+
+/-! ## segment, triangle: the better vertex -/
+
+section vertices
+
+private theorem seg3_mem_a (a b : V3 K) : letI := fieldNum K sq; (Segment3.mk a b).Mem a := by
+  refine ⟨0, le_refl _, zero_le_one, ?_⟩
+  simp [V3.add, V3.sub, V3.smul]
+private theorem seg3_mem_b (a b : V3 K) : letI := fieldNum K sq; (Segment3.mk a b).Mem b := by
+  refine ⟨1, zero_le_one, le_refl _, ?_⟩
+  simp [V3.add, V3.sub, V3.smul]
+private theorem seg3_max (a b dir q : V3 K) (M : K) :
+    letI := fieldNum K sq
+    (Segment3.mk a b).Mem q → dir.dot a ≤ M → dir.dot b ≤ M → dir.dot q ≤ M := by
+  rintro ⟨t, h0, h1, rfl⟩ ha hb
+  simp only [V3.dot, V3.add, V3.sub, V3.smul] at *
+  nlinarith [mul_nonneg h0 (sub_nonneg.2 hb), mul_nonneg (sub_nonneg.2 h1) (sub_nonneg.2 ha)]
+private theorem seg2_mem_a (a b : V2 K) : letI := fieldNum K sq; (Segment2.mk a b).Mem a := by
+  refine ⟨0, le_refl _, zero_le_one, ?_⟩
+  simp [V2.add, V2.sub, V2.smul]
+private theorem seg2_mem_b (a b : V2 K) : letI := fieldNum K sq; (Segment2.mk a b).Mem b := by
+  refine ⟨1, zero_le_one, le_refl _, ?_⟩
+  simp [V2.add, V2.sub, V2.smul]
+private theorem seg2_max (a b dir q : V2 K) (M : K) :
+    letI := fieldNum K sq
+    (Segment2.mk a b).Mem q → dir.dot a ≤ M → dir.dot b ≤ M → dir.dot q ≤ M := by
+  rintro ⟨t, h0, h1, rfl⟩ ha hb
+  simp only [V2.dot, V2.add, V2.sub, V2.smul] at *
+  nlinarith [mul_nonneg h0 (sub_nonneg.2 hb), mul_nonneg (sub_nonneg.2 h1) (sub_nonneg.2 ha)]
+end vertices
+
+private theorem dot_comm3 (a b : V3 K) : letI := fieldNum K sq; a.dot b = b.dot a := by
+  simp only [V3.dot]; ring
+private theorem dot_comm2 (a b : V2 K) : letI := fieldNum K sq; a.dot b = b.dot a := by
+  simp only [V2.dot]; ring
+
+/-- **C10 (segment, 3-D)**: for every segment and every direction, `Segment::local_support_point` returns a
+point of the segment maximising `dir·p` over the whole segment (not only over its two end points). -/
+theorem segment_support3 (a b dir : V3 K) :
+    letI := fieldNum K sq
+    IsSupport3 sq (Segment3.mk a b).Mem dir (segmentLocal3 a b dir) := by
+  unfold IsSupport3 segmentLocal3
+  by_cases c : (@V3.dot K (fieldNum K sq) b dir) < (@V3.dot K (fieldNum K sq) a dir)
+  · rw [if_pos c]
+    rw [dot_comm3 sq b, dot_comm3 sq a] at c
+    exact ⟨seg3_mem_a sq a b, fun q hq => seg3_max sq a b dir q _ hq (le_refl _) c.le⟩
+  · rw [if_neg c]
+    rw [dot_comm3 sq b, dot_comm3 sq a] at c
+    exact ⟨seg3_mem_b sq a b, fun q hq => seg3_max sq a b dir q _ hq (not_lt.1 c) (le_refl _)⟩
+
+/-- **C10 (segment, 2-D)**. -/
+theorem segment_support2 (a b dir : V2 K) :
+    letI := fieldNum K sq
+    IsSupport2 sq (Segment2.mk a b).Mem dir (segmentLocal2 a b dir) := by
+  unfold IsSupport2 segmentLocal2
+  by_cases c : (@V2.dot K (fieldNum K sq) b dir) < (@V2.dot K (fieldNum K sq) a dir)
+  · rw [if_pos c]
+    rw [dot_comm2 sq b, dot_comm2 sq a] at c
+    exact ⟨seg2_mem_a sq a b, fun q hq => seg2_max sq a b dir q _ hq (le_refl _) c.le⟩
+  · rw [if_neg c]
+    rw [dot_comm2 sq b, dot_comm2 sq a] at c
+    exact ⟨seg2_mem_b sq a b, fun q hq => seg2_max sq a b dir q _ hq (not_lt.1 c) (le_refl _)⟩
+
+private theorem tri3_mem (a b c : V3 K) :
+    letI := fieldNum K sq
+    (Triangle3.mk a b c).Mem a ∧ (Triangle3.mk a b c).Mem b ∧ (Triangle3.mk a b c).Mem c := by
+  refine ⟨⟨0, 0, ?_⟩, ⟨1, 0, ?_⟩, ⟨0, 1, ?_⟩⟩ <;> simp [V3.add, V3.sub, V3.smul]
+private theorem tri3_max (a b c dir q : V3 K) (M : K) :
+    letI := fieldNum K sq
+    (Triangle3.mk a b c).Mem q → dir.dot a ≤ M → dir.dot b ≤ M → dir.dot c ≤ M → dir.dot q ≤ M := by
+  rintro ⟨u, v, h0, h1, h2, rfl⟩ ha hb hc
+  simp only [V3.dot, V3.add, V3.sub, V3.smul] at *
+  nlinarith [mul_nonneg h0 (sub_nonneg.2 hb), mul_nonneg h1 (sub_nonneg.2 hc), mul_nonneg (sub_nonneg.2 h2) (sub_nonneg.2 ha)]
+private theorem tri2_mem (a b c : V2 K) :
+    letI := fieldNum K sq
+    (Triangle2.mk a b c).Mem a ∧ (Triangle2.mk a b c).Mem b ∧ (Triangle2.mk a b c).Mem c := by
+  refine ⟨⟨0, 0, ?_⟩, ⟨1, 0, ?_⟩, ⟨0, 1, ?_⟩⟩ <;> simp [V2.add, V2.sub, V2.smul]
+private theorem tri2_max (a b c dir q : V2 K) (M : K) :
+    letI := fieldNum K sq
+    (Triangle2.mk a b c).Mem q → dir.dot a ≤ M → dir.dot b ≤ M → dir.dot c ≤ M → dir.dot q ≤ M := by
+  rintro ⟨u, v, h0, h1, h2, rfl⟩ ha hb hc
+  simp only [V2.dot, V2.add, V2.sub, V2.smul] at *
+  nlinarith [mul_nonneg h0 (sub_nonneg.2 hb), mul_nonneg h1 (sub_nonneg.2 hc), mul_nonneg (sub_nonneg.2 h2) (sub_nonneg.2 ha)]
+
+/-- **C10 (triangle, 3-D)**: `Triangle::local_support_point` returns a point of the (filled) triangle that
+maximises `dir·p` over the whole triangle, for every triangle (degenerate ones included) and direction. -/
+theorem triangle_support3 (a b c dir : V3 K) :
+    letI := fieldNum K sq
+    IsSupport3 sq (Triangle3.mk a b c).Mem dir (triangleLocal3 a b c dir) := by
+  obtain ⟨ma, mb, mc⟩ := tri3_mem sq a b c
+  unfold IsSupport3 triangleLocal3
+  simp only [dot_comm3 sq _ dir]
+  split_ifs with c1 c2 c3
+  · exact ⟨ma, fun q hq => tri3_max sq a b c dir q _ hq (le_refl _) c1.le c2.le⟩
+  · exact ⟨mc, fun q hq => tri3_max sq a b c dir q _ hq (not_lt.1 c2) (c1.le.trans (not_lt.1 c2)) (le_refl _)⟩
+  · exact ⟨mb, fun q hq => tri3_max sq a b c dir q _ hq (not_lt.1 c1) (le_refl _) c3.le⟩
+  · exact ⟨mc, fun q hq => tri3_max sq a b c dir q _ hq ((not_lt.1 c1).trans (not_lt.1 c3)) (not_lt.1 c3) (le_refl _)⟩
+
+/-- **C10 (triangle, 2-D)**. -/
+theorem triangle_support2 (a b c dir : V2 K) :
+    letI := fieldNum K sq
+    IsSupport2 sq (Triangle2.mk a b c).Mem dir (triangleLocal2 a b c dir) := by
+  obtain ⟨ma, mb, mc⟩ := tri2_mem sq a b c
+  unfold IsSupport2 triangleLocal2
+  simp only [dot_comm2 sq _ dir]
+  split_ifs with c1 c2 c3
+  · exact ⟨ma, fun q hq => tri2_max sq a b c dir q _ hq (le_refl _) c1.le c2.le⟩
+  · exact ⟨mc, fun q hq => tri2_max sq a b c dir q _ hq (not_lt.1 c2) (c1.le.trans (not_lt.1 c2)) (le_refl _)⟩
+  · exact ⟨mb, fun q hq => tri2_max sq a b c dir q _ hq (not_lt.1 c1) (le_refl _) c3.le⟩
+  · exact ⟨mc, fun q hq => tri2_max sq a b c dir q _ hq ((not_lt.1 c1).trans (not_lt.1 c3)) (not_lt.1 c3) (le_refl _)⟩
+
+/-! ## ball: normalise, then scale -/
+
+/-- `dir · (dir/|dir| · r) = |dir| r` and `|dir/|dir| · r|² = r²` (3-D), for `n = |dir| > 0`. -/
+private theorem unit_scale3 (x y z n r : K) (hn : 0 < n) (hnn : n * n = x*x + y*y + z*z) :
+    x * (x / n * r) + y * (y / n * r) + z * (z / n * r) = n * r ∧
+    (x / n * r) * (x / n * r) + (y / n * r) * (y / n * r) + (z / n * r) * (z / n * r) = r * r := by
+  have hne : n ≠ 0 := ne_of_gt hn
+  constructor
+  · field_simp; linear_combination (-r) * hnn
+  · field_simp; linear_combination (-(r^2)) * hnn
+private theorem unit_scale2 (x y n r : K) (hn : 0 < n) (hnn : n * n = x*x + y*y) :
+    x * (x / n * r) + y * (y / n * r) = n * r ∧
+    (x / n * r) * (x / n * r) + (y / n * r) * (y / n * r) = r * r := by
+  have hne : n ≠ 0 := ne_of_gt hn
+  constructor
+  · field_simp; linear_combination (-r) * hnn
+  · field_simp; linear_combination (-(r^2)) * hnn
+
+/-- **C10 (ball, 3-D)**: for every radius `r ≥ 0` and every non-zero direction, `Ball::local_support_point`
+(= `dir/|dir| · r`) is a point of the ball that maximises `dir·p` over the ball. -/
+theorem ball_support3 (hs : LawfulSqrt sq) (r : K) (dir : V3 K) (hr : 0 ≤ r)
+    (hd : dir.x ≠ 0 ∨ dir.y ≠ 0 ∨ dir.z ≠ 0) :
+    letI := fieldNum K sq
+    IsSupport3 sq (Ball.mk r).Mem3 dir (ballLocal3 r dir) := by
+  have hpos := sumsq3_pos hd
+  have hn := norm_pos_of hs hpos
+  have hnn := hs.sq_mul _ hpos.le
+  obtain ⟨e1, e2⟩ := unit_scale3 dir.x dir.y dir.z _ r hn hnn
+  simp only [IsSupport3, Ball.Mem3, ballLocal3, ballToward3, normalize3, V3.sdiv, V3.smul, V3.norm, V3.normSq, V3.dot]
+  refine ⟨le_of_eq e2, fun q hq => ?_⟩
+  exact (dot_le3 _ _ _ _ _ _ _ _ hn.le hr hnn hq).trans (le_of_eq e1.symm)
+
+/-- non-vacuity of the `LawfulSqrt` hypothesis used throughout: the real square root is lawful. -/
+theorem lawfulSqrt_real : LawfulSqrt Real.sqrt :=
+  ⟨fun x _ => Real.sqrt_nonneg x, fun _ hx => Real.mul_self_sqrt hx⟩
+
+example : (0:ℝ) ≤ 2 ∧ ((⟨3, 0, -4⟩ : V3 ℝ).x ≠ 0 ∨ (⟨3, 0, -4⟩ : V3 ℝ).y ≠ 0 ∨ (⟨3, 0, -4⟩ : V3 ℝ).z ≠ 0) := by
+  norm_num
+
+/-- **C10 (ball, 2-D)**. -/
+theorem ball_support2 (hs : LawfulSqrt sq) (r : K) (dir : V2 K) (hr : 0 ≤ r)
+    (hd : dir.x ≠ 0 ∨ dir.y ≠ 0) :
+    letI := fieldNum K sq
+    IsSupport2 sq (Ball.mk r).Mem2 dir (ballLocal2 r dir) := by
+  have hpos := sumsq2_pos hd
+  have hn := norm_pos_of hs hpos
+  have hnn := hs.sq_mul _ hpos.le
+  obtain ⟨e1, e2⟩ := unit_scale2 dir.x dir.y _ r hn hnn
+  simp only [IsSupport2, Ball.Mem2, ballLocal2, ballToward2, normalize2, V2.sdiv, V2.smul, V2.norm, V2.normSq, V2.dot]
+  refine ⟨le_of_eq e2, fun q hq => ?_⟩
+  exact (dot_le2 _ _ _ _ _ _ hn.le hr hnn hq).trans (le_of_eq e1.symm)
+
+/-! ## capsule: better end point + `dir/|dir| · r` -/
+
+/-- **C10 (capsule, 3-D)**: for every capsule (`r ≥ 0`, any end points, coincident ones included) and every
+non-zero direction, `Capsule::local_support_point` is a point of the capsule (within `r` of the segment) and
+maximises `dir·p` over the capsule. -/
+theorem capsule_support3 (hs : LawfulSqrt sq) (a b : V3 K) (r : K) (dir : V3 K) (hr : 0 ≤ r)
+    (hd : dir.x ≠ 0 ∨ dir.y ≠ 0 ∨ dir.z ≠ 0) :
+    letI := fieldNum K sq
+    IsSupport3 sq (Capsule3.mk a b r).Mem dir (capsuleLocal3 a b r dir) := by
+  have hpos := sumsq3_pos hd
+  have hn := norm_pos_of hs hpos
+  have hnn := hs.sq_mul _ hpos.le
+  obtain ⟨e1, e2⟩ := unit_scale3 dir.x dir.y dir.z _ r hn hnn
+  have hne : sq (dir.x * dir.x + dir.y * dir.y + dir.z * dir.z) ≠ 0 := ne_of_gt hn
+  -- `try_new` succeeds on a non-zero direction
+  have htn : @tryNew3 K (fieldNum K sq) dir 0 = some (@V3.sdiv K (fieldNum K sq) dir (sq (dir.x * dir.x + dir.y * dir.y + dir.z * dir.z))) := by
+    simp only [tryNew3]
+    split_ifs with h
+    · rfl
+    · exact absurd (by simpa [V3.normSq, V3.dot] using hpos) h
+  unfold IsSupport3 capsuleLocal3
+  rw [htn]
+  simp only [Option.getD_some, capsuleToward3]
+  -- which end point is chosen agrees with comparing `dir·a` and `dir·b`
+  let _ : Num K := fieldNum K sq
+  set n := sq (dir.x * dir.x + dir.y * dir.y + dir.z * dir.z) with hndef
+  have hcmp : ∀ p : V3 K, @V3.dot K (fieldNum K sq) (@V3.sdiv K (fieldNum K sq) dir n) p
+      = (@V3.dot K (fieldNum K sq) dir p) / n := by
+    intro p; simp only [V3.dot, V3.sdiv]; field_simp
+  have mem_of : ∀ e : V3 K, (Segment3.mk a b).Mem e →
+      (Capsule3.mk a b r).Mem (@V3.add K (fieldNum K sq) e (@V3.smul K (fieldNum K sq) (@V3.sdiv K (fieldNum K sq) dir n) r)) := by
+    intro e he
+    refine ⟨e, he, ?_⟩
+    simp only [V3.normSq, V3.dot, V3.sub, V3.add, V3.smul, V3.sdiv]
+    have : ∀ u v : K, u + v - u = v := fun u v => by ring
+    rw [this, this, this]
+    exact le_of_eq e2
+  have max_of : ∀ e : V3 K, @V3.dot K (fieldNum K sq) dir a ≤ @V3.dot K (fieldNum K sq) dir e →
+      @V3.dot K (fieldNum K sq) dir b ≤ @V3.dot K (fieldNum K sq) dir e →
+      ∀ q, (Capsule3.mk a b r).Mem q → @V3.dot K (fieldNum K sq) dir q ≤
+        @V3.dot K (fieldNum K sq) dir (@V3.add K (fieldNum K sq) e (@V3.smul K (fieldNum K sq) (@V3.sdiv K (fieldNum K sq) dir n) r)) := by
+    intro e hea heb q ⟨c, hc, hq⟩
+    have h1 := seg3_max sq a b dir c _ hc hea heb
+    have h2 := dot_le3 dir.x dir.y dir.z (q.x - c.x) (q.y - c.y) (q.z - c.z) n r hn.le hr hnn
+      (by simpa only [V3.normSq, V3.dot, V3.sub] using hq)
+    simp only [V3.dot, V3.add, V3.smul, V3.sdiv] at h1 ⊢
+    nlinarith [e1]
+  split_ifs with c
+  · rw [hcmp, hcmp, div_lt_div_iff_of_pos_right hn] at c
+    exact ⟨mem_of a (seg3_mem_a sq a b), max_of a (le_refl _) c.le⟩
+  · rw [hcmp, hcmp, div_lt_div_iff_of_pos_right hn] at c
+    exact ⟨mem_of b (seg3_mem_b sq a b), max_of b (not_lt.1 c) (le_refl _)⟩
+
+/-- **C10 (capsule, 2-D)**. -/
+theorem capsule_support2 (hs : LawfulSqrt sq) (a b : V2 K) (r : K) (dir : V2 K) (hr : 0 ≤ r)
+    (hd : dir.x ≠ 0 ∨ dir.y ≠ 0) :
+    letI := fieldNum K sq
+    IsSupport2 sq (Capsule2.mk a b r).Mem dir (capsuleLocal2 a b r dir) := by
+  have hpos := sumsq2_pos hd
+  have hn := norm_pos_of hs hpos
+  have hnn := hs.sq_mul _ hpos.le
+  obtain ⟨e1, e2⟩ := unit_scale2 dir.x dir.y _ r hn hnn
+  have hne : sq (dir.x * dir.x + dir.y * dir.y) ≠ 0 := ne_of_gt hn
+  -- `try_new` succeeds on a non-zero direction
+  have htn : @tryNew2 K (fieldNum K sq) dir 0 = some (@V2.sdiv K (fieldNum K sq) dir (sq (dir.x * dir.x + dir.y * dir.y))) := by
+    simp only [tryNew2]
+    split_ifs with h
+    · rfl
+    · exact absurd (by simpa [V2.normSq, V2.dot] using hpos) h
+  unfold IsSupport2 capsuleLocal2
+  rw [htn]
+  simp only [Option.getD_some, capsuleToward2]
+  -- which end point is chosen agrees with comparing `dir·a` and `dir·b`
+  let _ : Num K := fieldNum K sq
+  set n := sq (dir.x * dir.x + dir.y * dir.y) with hndef
+  have hcmp : ∀ p : V2 K, @V2.dot K (fieldNum K sq) (@V2.sdiv K (fieldNum K sq) dir n) p
+      = (@V2.dot K (fieldNum K sq) dir p) / n := by
+    intro p; simp only [V2.dot, V2.sdiv]; field_simp
+  have mem_of : ∀ e : V2 K, (Segment2.mk a b).Mem e →
+      (Capsule2.mk a b r).Mem (@V2.add K (fieldNum K sq) e (@V2.smul K (fieldNum K sq) (@V2.sdiv K (fieldNum K sq) dir n) r)) := by
+    intro e he
+    refine ⟨e, he, ?_⟩
+    simp only [V2.normSq, V2.dot, V2.sub, V2.add, V2.smul, V2.sdiv]
+    have : ∀ u v : K, u + v - u = v := fun u v => by ring
+    rw [this, this]
+    exact le_of_eq e2
+  have max_of : ∀ e : V2 K, @V2.dot K (fieldNum K sq) dir a ≤ @V2.dot K (fieldNum K sq) dir e →
+      @V2.dot K (fieldNum K sq) dir b ≤ @V2.dot K (fieldNum K sq) dir e →
+      ∀ q, (Capsule2.mk a b r).Mem q → @V2.dot K (fieldNum K sq) dir q ≤
+        @V2.dot K (fieldNum K sq) dir (@V2.add K (fieldNum K sq) e (@V2.smul K (fieldNum K sq) (@V2.sdiv K (fieldNum K sq) dir n) r)) := by
+    intro e hea heb q ⟨c, hc, hq⟩
+    have h1 := seg2_max sq a b dir c _ hc hea heb
+    have h2 := dot_le2 dir.x dir.y (q.x - c.x) (q.y - c.y) n r hn.le hr hnn
+      (by simpa only [V2.normSq, V2.dot, V2.sub] using hq)
+    simp only [V2.dot, V2.add, V2.smul, V2.sdiv] at h1 ⊢
+    nlinarith [e1]
+  split_ifs with c
+  · rw [hcmp, hcmp, div_lt_div_iff_of_pos_right hn] at c
+    exact ⟨mem_of a (seg2_mem_a sq a b), max_of a (le_refl _) c.le⟩
+  · rw [hcmp, hcmp, div_lt_div_iff_of_pos_right hn] at c
+    exact ⟨mem_of b (seg2_mem_b sq a b), max_of b (not_lt.1 c) (le_refl _)⟩
 
 end C10
